@@ -204,6 +204,10 @@ func (r *fidRun) timed(what string, f func()) bool {
 		return true
 	}
 	r.hung = true
+	if strings.HasPrefix(dump, "PANIC:") {
+		r.viol("state", "panic:"+what, "session call panicked\n"+hx.Trunc(dump, 1500))
+		return false
+	}
 	gs := hx.GoroutinesWith(dump, "p9p.(*session)", "sync.(*Mutex).Lock")
 	if len(gs) > 0 {
 		r.viol("hang", "hang:"+what, "session call never returns: blocked on a fid lock although every FileSys call returned\n"+hx.Trunc(gs[0], 1500))
